@@ -46,3 +46,11 @@ add("C10", "exploration",
     "All two-step sequences and seeded longer sequences over 16 operations (open x use_cache x create_cache x rpc, CLI creation in-process and as subprocess, cache deletions) run inside one interpreter; every step's tree is compared with a fresh uncached process's tree for that rpc, directory snapshots and an audit hook decide what was written where, option dictionaries and function defaults are compared before/after, earlier trees are re-checked for aliasing.",
     "References come from fresh processes with an empty private cache; deletes are the harness's own.",
     "history monitor: per-step differential canon against fresh-process references + snapshot and sys.addaudithook write monitors", "DESIGN.md §4 C10")
+add("C14", "exploration",
+    "Generated summaries (random key order within and across sections, LF/CRLF, free-text values with blanks, '=', quotes, 3-10 product files, several shape indices) are parsed by the real reader (summary.open_summary and, for a fifth, open_alos2) and every entry is compared type-exactly with the expectation of a hand-written recogniser and converter set; then lines are corrupted by eleven grammar-violating operators (single lines, pairs, random subsets, all lines) and the raised ExceptionGroup must name exactly the malformed line numbers under one constant base for the whole run.",
+    "Canonical section capitalisation; unique non-empty keys; ASCII text. The conversion table is frozen documentation (vf/props/c14.py make_entries).",
+    "reference-model monitor with an independent line recogniser; error-set oracle over ExceptionGroup line numbers", "DESIGN.md §4 C14")
+add("C15", "exploration",
+    "Enumeration of the documented identifier language through the real decoders: all 3600 product ids, all dates 2014-2049 as scene ids, all scan suffixes, all (polarisation, scan number) group names, file-name shapes (quick: 20k sampled, thorough: all ~3.8e5), compared with frozen code tables and a hand-written recogniser; single-edit near-misses that the recogniser rejects must raise ValueError; some ids go end to end through open_alos2.",
+    "Two-digit years resolved relative to 2026; mission name fixed to ALOS2. Tables in vf/idlang.py are frozen documentation.",
+    "reference-model monitor over an enumerated finite language + near-miss rejection oracle", "DESIGN.md §4 C15")
